@@ -260,6 +260,44 @@ mutual
     | k :: ks => bkidEvents env k ++ bkidsEvents env ks
 end
 
+/-! markup written by the template author with holes, as `Markup('<b title="%s">%s</b>') % (a, b)` uses it:
+    the pieces and the format string they are written as -/
+
+inductive FAttr where
+  | lit (v : List Char)      -- a literal attribute value (its text, not yet escaped)
+  | hole                     -- `%s`
+  deriving Repr, DecidableEq, Inhabited
+
+inductive FPiece where
+  | text (s : List Char)     -- literal character data (its text, not yet escaped)
+  | hole                     -- `%s` in text position
+  | open (tag : Name) (attrs : List (Name × FAttr))
+  | close (tag : Name)
+  deriving Repr, Inhabited
+
+/-- a literal `%` is written `%%` in a format string -/
+def pctDouble (s : List Char) : List Char := s.flatMap fun c => if c = '%' then ['%', '%'] else [c]
+
+def fmtAttr (p : Name × FAttr) : List Char :=
+  match p.2 with
+  | .lit v => ' ' :: (p.1 ++ ('=' :: '"' :: (pctDouble (escapePy true v) ++ ['"'])))
+  | .hole => ' ' :: (p.1 ++ ['=', '"', '%', 's', '"'])
+
+/-- the format string the author writes for the pieces -/
+def fmtString : List FPiece → List Char
+  | [] => []
+  | .text s :: rest => pctDouble (escapePy false s) ++ fmtString rest
+  | .hole :: rest => '%' :: 's' :: fmtString rest
+  | .open t attrs :: rest => '<' :: (t ++ (attrs.flatMap fmtAttr ++ '>' :: fmtString rest))
+  | .close t :: rest => '<' :: '/' :: (t ++ '>' :: fmtString rest)
+
+/-- fill the attribute holes from the operands; `none`: not enough operands -/
+def fillAttrs : List (Name × FAttr) → List (List Char) → Option (List (Name × List Char) × List (List Char))
+  | [], as => some ([], as)
+  | (n, .lit v) :: rest, as => (fillAttrs rest as).map fun r => ((n, v) :: r.1, r.2)
+  | (_, .hole) :: _, [] => none
+  | (n, .hole) :: rest, a :: as => (fillAttrs rest as).map fun r => ((n, a) :: r.1, r.2)
+
 /-- expression at a text site -/
 inductive SExpr where
   | v (e : VExpr)                                   -- `${e}`
@@ -268,6 +306,7 @@ inductive SExpr where
   | join (sep : List Char) (items : List Atom)      -- `Markup(sep).join([…])`
   | esc (a : Atom) (q : Bool)                       -- `escape(a, quotes=q)`
   | fmt (f : List Char) (args : FArgs)              -- `Markup(f) % args`
+  | fmtp (pieces : List FPiece) (args : List Atom)  -- `Markup(fmtString pieces) % (a, b, …)`
   | build (b : BKid)                                -- `tag.x(…)`
   | frag (kids : List BKid)                         -- `tag(…)`
   deriving Repr, Inhabited
@@ -280,6 +319,10 @@ def markupOp (env : Env) : SExpr → Option (List Char)
   | .esc a q => some (escOpnd escapePy q (toOpnd (evalAtom env a)))
   | .fmt f args =>
       match mMod escapePy f (evalFArgs env args) with
+      | .ok s => some s
+      | .error _ => none
+  | .fmtp ps as =>
+      match mMod escapePy (fmtString ps) (.tup (as.map fun a => toOpnd (evalAtom env a))) with
       | .ok s => some s
       | .error _ => none
   | _ => none
@@ -347,6 +390,11 @@ def siteOk (env : Env) : SExpr → Bool
   | .fmt f args =>
       fargsAtomsOk env args &&
       (match mMod escapePy f (evalFArgs env args) with
+        | .ok _ => true
+        | .error _ => false)
+  | .fmtp ps as =>
+      as.all (atomOk env) &&
+      (match mMod escapePy (fmtString ps) (.tup (as.map fun a => toOpnd (evalAtom env a))) with
         | .ok _ => true
         | .error _ => false)
   | _ => true
